@@ -282,8 +282,8 @@ def domain(tier, seed):
         count += 1
     dom.extend(atom_family())
     # deep trees (heights the enumeration never reaches: a depth threshold in a printer shows only here): chains of lists / tuples
-    # with a second leaf at every level, 8 and 12 levels deep
-    for H2, kinds in ((8, ('list', 'tuple')), (12, ('list', 'list'))):
+    # with a second leaf at every level, 8, 12 and 70 levels deep
+    for H2, kinds in ((8, ('list', 'tuple')), (12, ('list', 'list')), (70, ('list', 'tuple'))):
         n = [500]
 
         def leaf():
